@@ -298,6 +298,9 @@ def yield_vector(ctx, rule):
                 if f is not fn:
                     in_loop[0] = in_loop[0] or top[0] in cyc
                 ctx.ob(rule, "yield|accumulated|%s|%s" % (where, seg), True, "requests are added to the yielded vector with %s" % seg, f.loc(bi))
+            elif seg == "truncate" and pos == [0] and f is not fn and truncate_restores_entry(ctx, f, {i for i in handles if 1 <= i <= f.nargs}):
+                # `out.truncate(len_at_entry)` on an error path: what this call added is taken back, what the caller had collected stays
+                ctx.ob(rule, "yield|restored-on-error|%s" % where, True, "on an error path %s cuts the caller's vector back to the length it had on entry (nothing collected earlier is lost, nothing counted is withheld)" % last_seg(f.name), f.loc(bi))
             elif p in facts.fns and (is_new_fn(p) or p == CC + "read") and depth < 3:
                 g = facts.fns[p]
                 if f is fn:
@@ -319,6 +322,28 @@ def yield_vector(ctx, rule):
     looped = in_loop[0] or any(f == fn.name and b in cyc for f, b in acc_blocks)
     ctx.ob(rule, "yield|floor", n_acc[0] >= 1 and looped, "%d accumulating call(s) on the yielded vector, %s in the event loop (floor 1)" % (n_acc[0], "some" if looped else "none"), fn.loc(0))
     return acc_blocks
+
+
+def truncate_restores_entry(ctx, f, params):
+    """Every `v.truncate(n)` on a `&mut Vec` parameter of f has n = v.len() taken before anything was added on that path
+    (the receiver of that len() carries no mutation), and lies on a path that returns an error."""
+    if not params:
+        return False
+    fn_, lv = leaves(ctx, f.name, lower=True)
+    n = 0
+    for lf in lv:
+        for e in lf.events:
+            if e[0] != "call" or last_seg(e[3]) != "truncate" or "Vec" not in e[3] or not e[4][2]:
+                continue
+            r = _strip_mut(e[4][2][0])
+            if not (r[0] == "arg" and r[1] in params):
+                continue
+            n += 1
+            ln = look(e[4][2][1])
+            rk = ret_kind(lf)
+            if not (is_call(ln, "len") and look(ln[2][0]) == r and rk is not None and rk[0] in ("Err", "prop")):
+                return False
+    return n >= 1
 
 
 def callee(t):
